@@ -3621,14 +3621,14 @@ class Builder(object):
         connective = tokens[index]
         index += 1
         if connective not in ('is', ):
-            msg = "ParseError: Need status invalid connective '%s'" %\
+            msg = "ParseError: Need %s invalid connective '%s'" %\
                 (kind, connective)
             raise excepting.ParseError(msg, tokens, index)
 
         status = tokens[index]  # participle
         index += 1
         if status.capitalize() not in StatusValues:
-            msg = "ParseError: Need status invalid status '%s'" %\
+            msg = "ParseError: Need %s invalid status '%s'" %\
                 (kind, status)
             raise excepting.ParseError(msg, tokens, index)
         status = StatusValues[status.capitalize()] #replace name with value
